@@ -23,16 +23,21 @@ pub struct Ctx {
     pub start: Instant,
 }
 
+/// SPVERIF_SCALE_SHIFT=k divides every sample budget by 2^k and lowers the exhaustive thresholds by
+/// k bits: used only by tools/coverage.sh, where the instrumented build is ~100x slower and line
+/// coverage needs breadth, not volume. Never set by the registered checks.
+pub fn scale_shift() -> u32 {
+    static S: std::sync::OnceLock<u32> = std::sync::OnceLock::new();
+    *S.get_or_init(|| std::env::var("SPVERIF_SCALE_SHIFT").ok().and_then(|v| v.parse().ok()).unwrap_or(0))
+}
+
 impl Ctx {
     pub fn quick(&self) -> bool {
         self.tier == Tier::Quick
     }
     pub fn pick(&self, quick: u64, thorough: u64) -> u64 {
-        if self.quick() {
-            quick
-        } else {
-            thorough
-        }
+        let v = if self.quick() { quick } else { thorough };
+        (v >> scale_shift()).max(1)
     }
 }
 
